@@ -87,6 +87,14 @@ class Engine:
             for e in extra:
                 self.solver.add(e)
             r = self.solver.check()
+            if str(r) == "unknown":
+                # a time-out under load is not an answer: once more in a fresh solver with five times the budget and another seed
+                s2 = z3.Solver()
+                s2.set("timeout", int(self.timeout_ms) * 5)
+                s2.set("random_seed", 7)
+                s2.add(*self.solver.assertions())
+                r = s2.check()
+                self.stats["retries"] = self.stats.get("retries", 0) + 1
         finally:
             self.solver.pop()
         self.stats["queries"] += 1
